@@ -3,9 +3,11 @@ package vc
 import (
 	"fmt"
 	"go/ast"
+	"go/constant"
 	"go/token"
 	"go/types"
 	"math/big"
+	"sort"
 	"strings"
 
 	"golang.org/x/tools/go/ssa"
@@ -49,6 +51,12 @@ func (g *Gen) resolveCallee(c *ssa.CallCommon) *callee {
 		for i := 0; i < ps.Len(); i++ {
 			ce.names = append(ce.names, ps.At(i).Name())
 		}
+	} else if fn := c.StaticCallee(); fn != nil && strings.HasPrefix(fn.Name(), "_Cfunc_") {
+		cname := strings.TrimPrefix(fn.Name(), "_Cfunc_")
+		ce.key = "C." + cname
+		ce.args = c.Args
+		ce.names = g.P.CParams[cname]
+		ce.pkg = fn.Pkg.Pkg
 	} else if fn := c.StaticCallee(); fn != nil {
 		ce.key = FuncKey(fn)
 		if fn.Pkg != nil {
@@ -244,6 +252,9 @@ func (g *Gen) applyContract(ce *callee, pos token.Pos) []string {
 			g.assumePC(s)
 		}
 	}
+	if ce.key == "fmt.Errorf" && len(results) == 1 {
+		g.errorfClasses(ce, results[0], pre)
+	}
 	return results
 }
 
@@ -386,6 +397,7 @@ func (g *Gen) appendBuiltin(c *ssa.CallCommon, res ssa.Value) {
 	}
 	cp := g.freshConst("cap", g.M.IX())
 	g.assume(g.M.ixLe(n, cp))
+	g.assume(sEq(app("objsize", o), g.M.ixMulC(cp, es)))
 	if res != nil {
 		g.defineVal(res, app("mksl", dst, n, cp))
 	}
@@ -613,4 +625,87 @@ func (g *Gen) callLoopEffect(in ssa.CallInstruction, l *Loop) (regs []Region, al
 		}
 	}
 	return regs, false
+}
+
+
+// errorClasses lists the tracked error classes: typed error structs and sentinel errors of the module.
+func (g *Gen) errorClasses() []string {
+	if g.errClasses != nil {
+		return g.errClasses
+	}
+	for _, sp := range g.P.SPkgs {
+		for name, m := range sp.Members {
+			switch m := m.(type) {
+			case *ssa.Type:
+				if st, ok := m.Type().Underlying().(*types.Struct); ok && strings.HasSuffix(name, "Error") && st.NumFields() == 1 && st.Field(0).Embedded() {
+					g.errClasses = append(g.errClasses, fmt.Sprint(g.typeID(types.NewPointer(m.Type()))))
+				}
+			case *ssa.Global:
+				if strings.HasPrefix(name, "err") && types.Identical(m.Type().(*types.Pointer).Elem(), types.Universe.Lookup("error").Type()) {
+					g.errClasses = append(g.errClasses, g.sentinelClass(m))
+				}
+			}
+		}
+	}
+	sort.Strings(g.errClasses)
+	return g.errClasses
+}
+
+// sentinelClass is the error class of "errors.Is(e, <global sentinel>)".
+func (g *Gen) sentinelClass(gl *ssa.Global) string {
+	var names []string
+	for _, sp := range g.P.SPkgs {
+		for name, m := range sp.Members {
+			if _, ok := m.(*ssa.Global); ok && strings.HasPrefix(name, "err") {
+				names = append(names, sp.Pkg.Path()+"."+name)
+			}
+		}
+	}
+	sort.Strings(names)
+	for i, n := range names {
+		if n == gl.Pkg.Pkg.Path()+"."+gl.Name() {
+			return fmt.Sprintf("(- %d)", 1000+i)
+		}
+	}
+	return "(- 999)"
+}
+
+// errorfClasses: the classes of fmt.Errorf's result are those of the arguments wrapped with %w.
+func (g *Gen) errorfClasses(ce *callee, r string, pre *State) {
+	fc, ok := ce.args[0].(*ssa.Const)
+	if !ok || fc.Value == nil {
+		g.Warnings = append(g.Warnings, "fmt.Errorf with non-constant format: error classes unknown")
+		return
+	}
+	format := constant.StringVal(fc.Value)
+	var wrapped []int
+	argi := 0
+	for i := 0; i < len(format); i++ {
+		if format[i] != '%' {
+			continue
+		}
+		i++
+		for i < len(format) && strings.ContainsRune("+-# 0123456789.", rune(format[i])) {
+			i++
+		}
+		if i >= len(format) {
+			break
+		}
+		if format[i] == '%' {
+			continue
+		}
+		if format[i] == 'w' {
+			wrapped = append(wrapped, argi)
+		}
+		argi++
+	}
+	sl := g.val(ce.args[1])
+	for _, c := range g.errorClasses() {
+		var alts []string
+		for _, k := range wrapped {
+			elem := g.loadCell(pre, g.ptrAdd(app("sl.ptr", sl), g.M.IxLit(int64(k))), "Iface")
+			alts = append(alts, app("errclass", elem, c))
+		}
+		g.assumePC(sEq(app("errclass", r, c), sOr(alts...)))
+	}
 }
